@@ -65,14 +65,14 @@ def alias(src, new_id):
 
 
 ALLOC_CORE = ["U64GroupedBitmap::*", "BtreeBitmap::*", "BuddyAllocator::*", "BS::*", "RegionTracker::*", "Allocators::*", "InMemoryState::*", "DatabaseHeader::*",
-              "PageNumber::*", "TransactionalMemory::try_shrink", "TransactionalMemory::free_helper", "TransactionalMemory::free", "lemma_*", "bits_in_range", "buddy_page", "next_higher_order", "calculate_usable_order", "min_u8", "max_u32"]
+              "PageNumber::*", "TransactionalMemory::try_shrink", "TransactionalMemory::grow", "TransactionalMemory::free_helper", "TransactionalMemory::free", "lemma_*", "bits_in_range", "buddy_page", "next_higher_order", "calculate_usable_order", "min_u8", "max_u32"]
 LAYOUT = ["RegionLayout::*", "DatabaseLayout::*", "round_up_to_multiple_of", "lemma_mul_le", "lemma_div_exact", "lemma_round_up"]
 
 reg = {
     "units": {
         "alloc": {"overlay": "units/alloc.ovl", "canaries": ["canary_alloc"],
                   # executable functions defined in the overlay rather than extracted from /repo: rule helpers (T4)
-                  "helpers": ["xxh3_checksum", "div_ceil_u32", "pow2_u32", "vec_reverse", "min_u8", "max_u32", "min_u32",
+                  "helpers": ["xxh3_checksum", "div_ceil_u32", "pow2_u32", "vec_reverse", "min_u8", "max_u32", "min_u32", "pow2_u64", "max_u64",
                               # models of what the page-manager protocol functions call into (Mutex, storage trace, unpersisted set)
                               "lock", "drop", "gt_id", "clone", "check_io_errors", "flush", "resize", "sync_file", "close", "write_barrier",
                               "invalidate_cache", "cancel_pending_write", "clear", "extend", "claim", "remove", "write_header",
@@ -113,7 +113,7 @@ reg = {
         "T1 rustc, Kani 0.68 / CBMC 6.11 / CaDiCaL, Verus 0.2026.09.13 / Z3 are sound",
         "T2 Kani's models of std (allocation, Arc, Mutex on one thread, atomics as plain cells) match the real ones on one thread",
         "T3 vstd's specifications of Vec, Option, integer operations, leading/trailing_zeros, is_multiple_of",
-        "T4 external_body helpers of the extraction rules: pow2_u32 (spec 2^e), div_ceil_u32 (spec ceil(x/y)), vec_reverse; external_body functions of the alloc unit whose bodies Verus cannot read: xxh3_hash, to_vec, from_bytes (all three structures), count_unset, any_unset, check_allocated_pages",
+        "T4 external_body helpers of the extraction rules: pow2_u32 / pow2_u64 (spec 2^e), div_ceil_u32 (spec ceil(x/y)), vec_reverse; external_body functions of the alloc unit whose bodies Verus cannot read: xxh3_hash, to_vec, from_bytes (all three structures), count_unset, any_unset, check_allocated_pages",
         "T8 the checksum is SOME deterministic function of its input (Kani stub stub_xxh3); nothing claimed depends on collision resistance",
         "T10 machine integers: Verus checks overflow of every executable operation; Kani checks overflow too (no mathematical-integer shortcut)",
         "T12 the extractor's rule table preserves meaning (rules and firing counts are printed in this file)",
@@ -152,11 +152,11 @@ P["C14"] = {
 P["C20"] = {
     "level": "proof",
     "verus": [{"unit": "alloc", "functions": LAYOUT + ["BuddyAllocator::trailing_free_pages", "BuddyAllocator::find_free_order", "PageNumber::*",
-                                              "TransactionalMemory::try_shrink", "TransactionalMemory::commit", "TransactionalMemory::close", "Mutex::lock", "drop", "InMemoryState::get_region", "InMemoryState::allocators", "InMemoryState::allocators_mut",
+                                              "TransactionalMemory::try_shrink", "TransactionalMemory::grow", "TransactionalMemory::commit", "TransactionalMemory::close", "Mutex::lock", "drop", "max_u64", "InMemoryState::get_region", "InMemoryState::allocators", "InMemoryState::allocators_mut",
                                               "DatabaseHeader::*", "Allocators::resize_to", "Allocators::lemma_resize_shrink", "Allocators::lemma_grow_step_*", "lemma_pow2_shift"]}],
     "kani": [K["C20-L1"], K["C20-L2a"], K["C20-L2b"], K["C20-L3a"], K["C20-L3b"]],
-    "explanation": "Kernel: (A1) every page of every region of a valid layout ends inside layout.len() (lemma_page_in_bounds over the real layout.rs accessors); (A2) reduce_last_region shortens the layout by exactly the pages cut (plus the region header when the region disappears) and recalculate(file_len) never extends past the file; (A3) calculate(d) offers at least d usable bytes; (A4) never shrinks below a page still in use: the pages trailing_free_pages reports are all free, and the REAL try_shrink cuts at most those pages from the last region (reduce_last_region), hands resize_to a layout whose removed pages are all free, keeps the allocator state consistent with the header layout, and never lengthens the layout; the REAL TransactionalMemory::commit truncates the file (storage.resize) only after the header carrying the shorter layout has been written and synced, to exactly that layout's length; the REAL TransactionalMemory::close reaches the backend's close() exactly once, as the last event, also when the shutdown writes failed; (L1) the I/O-failure latch is inductive and nothing reaches the backend once it is set; (L2) close() reaches the backend once and nothing afterwards; (L3) the read-only wrapper forwards no mutation.",
-    "not_decided": "'exactly once' across Database / transaction hand-off on threads; failing opens through Builder; page numbers followed from a corrupted branch page; TransactionalMemory::grow (file growth before the larger layout is adopted) and flush_shutdown_header (assumed not to close the backend)",
+    "explanation": "Kernel: (A1) every page of every region of a valid layout ends inside layout.len() (lemma_page_in_bounds over the real layout.rs accessors); (A2) reduce_last_region shortens the layout by exactly the pages cut (plus the region header when the region disappears) and recalculate(file_len) never extends past the file; (A3) calculate(d) offers at least d usable bytes; (A4) never shrinks below a page still in use: the pages trailing_free_pages reports are all free, and the REAL try_shrink cuts at most those pages from the last region (reduce_last_region), hands resize_to a layout whose removed pages are all free, keeps the allocator state consistent with the header layout, and never lengthens the layout; the REAL TransactionalMemory::commit truncates the file (storage.resize) only after the header carrying the shorter layout has been written and synced, to exactly that layout's length; the REAL TransactionalMemory::grow extends the file to exactly the new layout's length and syncs it BEFORE the allocator state and the header adopt the larger layout, leaves the state untouched when either step fails, never shortens the layout, makes room for the allocation that asked for it, and keeps every region but the last as it was; the REAL TransactionalMemory::close reaches the backend's close() exactly once, as the last event, also when the shutdown writes failed; (L1) the I/O-failure latch is inductive and nothing reaches the backend once it is set; (L2) close() reaches the backend once and nothing afterwards; (L3) the read-only wrapper forwards no mutation.",
+    "not_decided": "'exactly once' across Database / transaction hand-off on threads; failing opens through Builder; page numbers followed from a corrupted branch page; flush_shutdown_header (assumed not to close the backend); allocate_helper's call of grow (it holds the state lock across the call)",
 }
 P["C08"] = {
     "level": "proof",
